@@ -212,9 +212,9 @@ func c05Body(c *run.Ctx) {
 		MaxHands:     run.Scale(10, 25),
 		BetweenOps:   3,
 		BetweenPct:   70,
-		Mem:          sim.MemOpts{NewPlayer: 5, NewRandom: 2, JoinSitter: 3, Rebuy: 5, Leave: 3, KeepSitting: 30, MaxNewID: 14},
+		Mem:          sim.MemOpts{NewPlayer: 5, NewRandom: 2, JoinSitter: 3, Rebuy: 5, Addon: 2, Leave: 3, KeepSitting: 30, MaxNewID: 14},
 		InHandOps:    6,
-		InHandMem:    sim.MemOpts{NewPlayer: 4, NewRandom: 1, JoinSitter: 3, Rebuy: 3, Leave: 1, KeepSitting: 30, MaxNewID: 14},
+		InHandMem:    sim.MemOpts{NewPlayer: 4, NewRandom: 1, JoinSitter: 3, Rebuy: 3, Addon: 3, Leave: 1, KeepSitting: 30, MaxNewID: 14},
 		RearmOnLeave: true,
 	}
 	o.AfterHand = func(s *sim.Sim, h *sim.Hand) {
